@@ -191,6 +191,10 @@ impl Iterator for ManiaGradualDifficulty {
 
 impl ExactSizeIterator for ManiaGradualDifficulty {
     fn len(&self) -> usize {
+        if self.objects_is_circle.is_empty() {
+            return 0;
+        }
+
         self.diff_objects.len() + 1 - self.idx
     }
 }
